@@ -241,6 +241,23 @@ def run(ctx):
                 ok = "call:Session::get_transaction_context" in tg
         ctx.ob("R6", "Session::%s#versioned" % n, ok,
                what="Session::%s does not read through LpgStore::%s with the context from get_transaction_context" % (n, acc), where=f.loc())
+    # ---- R7: the session's point lookups / neighbour listings touch the store only through versioned accessors
+    versioned_ok = {common.LPG + "::get_node_versioned", common.LPG + "::get_edge_versioned"}
+    n7 = 0
+    for f in common.session_fns(P, common.SESSION_DIRECT_READ, 10):
+        for g in P.family(f):
+            for bi, tm in g.calls():
+                cal = callee_name(tm)
+                if not cal.startswith(common.LPG + "::"):
+                    continue
+                n7 += 1
+                acc = cal.split("::")[-1]
+                ctx.ob("R7", "%s->%s" % (short_id(f.id), acc), cal in versioned_ok,
+                       what="%s reads the store through LpgStore::%s, which takes no (epoch, transaction) context: the lookup "
+                            "answers from outside the caller's snapshot (uncommitted, rolled-back or later-committed data)"
+                            % (short_id(f.id), acc), where=g.loc(tm["line"]))
+    ctx.floor("R7", n7, 5, "store calls in session point lookups")
+
     # get_transaction_context: inside a transaction the epoch is the transaction's start epoch
     rows = []
     gx = FlowCx(P, gtc)
